@@ -1097,7 +1097,7 @@ def shrink_candidates(case):
 def exhaustive():
     """ALL histories of length <= 2 over an alphabet of 60 requests, and all histories of length 3 over a sub-alphabet of
     18, on 2 OMS x 17 slots (n = -8..8, guard band one grid step), from two initial states; both policies for length 1;
-    same-route pairs additionally as one pth_assign_spectrum call, half of the triples as one call."""
+    same-route pairs additionally as one pth_assign_spectrum call and with last_fit, half of the triples as one call."""
     f_min, f_max, gb = ANCHOR - 8 * GRID, ANCHOR + 8 * GRID, GRID
 
     def oms(cells0, cells1):
@@ -1128,8 +1128,9 @@ def exhaustive():
         for a in alphabet:
             for b in alphabet:
                 yield mk([a, b], st, 'first_fit')
-                if a[0] == b[0]:                       # same route: also as ONE pth_assign_spectrum call
+                if a[0] == b[0]:                       # same route: also as ONE pth_assign_spectrum call, and last fit
                     yield mk([a, b], st, 'first_fit', one_call=True)
+                    yield mk([a, b], st, 'last_fit', one_call=(a[1] + b[1]) % 2 == 0)
         for a in small:
             for b in small:
                 for c in small:
